@@ -17,13 +17,12 @@
  * The three tables are tracked at one ghost row each (arbitrary, fixed before the call: the claims hold for every
  * row); `maxrow` records the largest row ever written, `written` the columns of the ghost row that were written. */
 #include <stdlib.h>
+#include "columns.h"
 #define NV_MAXG 1000               /* generators */
 #define NV_MAXF 1000               /* generated features in total */
 #define NV_MAXC 1099511627776L       /* flattened columns in total (2^40): keeps the counters inside int64 */
 struct nv_rgen { int64_t idx; };                               /* rgenerator_t; ghost: the position of the slot in m_generators */
 struct nv_gens { struct nv_rgen* p; uint64_t size; };          /* std::vector<rgenerator_t> */
-struct nv_dims3 { int64_t d0, d1, d2; int64_t nv_size; };            /* tensor3d_dims_t; ghost: nano::size(dims) (product, proved in C16) */
-struct nv_feature { int32_t m_type; int64_t m_classes; struct nv_dims3 m_dims; };   /* feature_t: type(), classes(), dims() */
 struct nv_map_g { int64_t maxrow; uint32_t written; int64_t c0, c1, c2, c3, c4; };                /* what the writes change (one assigns target) */
 struct nv_map { int64_t rows, cols; int64_t grow; struct nv_map_g g; };                /* tensor_mem_t<tensor_size_t, 2> at the ghost row */
 struct nv_dataset { struct nv_gens m_generators; struct nv_map m_column_mapping, m_feature_mapping, m_generator_mapping; };
@@ -33,8 +32,7 @@ int64_t nv_cbase[NV_MAXF + 2];       /* ghost input: prefix sums of columns(k) o
 struct nv_feature nv_F;              /* ghost input: the descriptor of the ghost feature (feature() is a pure function: both loops see it) */
 int64_t nv_gfeat;                    /* ghost: the global index of the ghost feature */
 
-/* the documented encodings: flattened columns of a feature */
-#define NV_COLUMNS(f) ((f).m_type == NVE_feature_type_sclass ? (f).m_classes - 1 : (f).m_type == NVE_feature_type_mclass ? (f).m_classes : (f).m_dims.nv_size)
+/* the documented encodings: flattened columns of a feature = NV_COLUMNS of columns.h (shared with the generators' process targets) */
 
 /* range-for over m_generators: the iterator is the position */
 static int64_t nv_gens_begin(const struct nv_gens* v) { return 0; }
